@@ -1701,6 +1701,11 @@ def _divisions_from_statistics(aggregated_stats, index_name):
     sorted_minmax = minmax[argsort]
     if not sorted_minmax.is_monotonic_increasing:
         return tuple([None] * (len(aggregated_stats) + 1)), None
+    for (_, prev_max), (next_min, _) in zip(sorted_minmax[:-1], sorted_minmax[1:]):
+        # sorting the (min, max) pairs always yields a monotonic sequence; the
+        # files only define divisions if their ranges do not overlap
+        if prev_max is None or next_min is None or next_min < prev_max:
+            return tuple([None] * (len(aggregated_stats) + 1)), None
     for file_min, file_max in sorted_minmax:
         divisions.append(file_min)
         last_max = file_max
